@@ -59,6 +59,13 @@ KINDS = {
     'coroutine': (['>>> import asyncio', '>>> async def co():', '...     await asyncio.sleep(0)', '...     raise OSError("c")',
                    '>>> await co()  # FAILMARK'], 'OSError'),
     'multiline_raise': (['>>> zz = [1,', '...     int("FAILMARK"),', '...     3]'], 'ValueError'),
+    'try_finally': (['>>> try:', '...     x = 1', '...     raise ValueError("FAILMARK")', '... finally:', '...     y = None',
+                     '...     z = None'], 'ValueError'),
+    'try_except_other': (['>>> try:', '...     raise ZeroDivisionError("FAILMARK")', '... except KeyError:', '...     pass'],
+                         'ZeroDivisionError'),
+    'comprehension': (['>>> zz = [', '...     int(v)  # FAILMARK', '...     for v in ["1", "x"]', '... ]'], 'ValueError'),
+    'with_raise': (['>>> import contextlib', '>>> with contextlib.suppress(KeyError):', '...     a = 1',
+                    '...     raise ValueError("FAILMARK")'], 'ValueError'),
 }
 KIND_NAMES = sorted(KINDS) + ['import_error']
 POSITIONS = ['first', 'middle', 'last']
